@@ -12,6 +12,18 @@ TRUSTED_BASE = [
 HOOK_COMMITS = []
 
 CONFIG = {
+    "C01": {
+        "custom": "c01",
+        "props": ["theories/C01_Props.v"],
+        "technique": "Coq theorem (Lock.v: well-bracketed RWMutex programs are race-, panic- and deadlock-free under every interleaving) applied by computation to lock/effect skeletons regenerated from the Go source by a translator on every run; Go race detector runs as search for a failing schedule",
+        "level_text": "PARTIAL. Proved in Coq for all numbers of goroutines, all call sequences and all interleavings: a program whose threads are sequences of paths of checked skeletons has no data race on guarded state, no unlock-of-unlocked panic, no deadlock, and hands out no reference to mutable guarded data. The skeletons are regenerated from the current Go source on every run by harness/cmd/skel and the obligation check(sk)=true is re-proved by vm_compute for every exported method. Not proved: that the translator's effect analysis over-approximates the real accesses (validated by running all method pairs under the race detector), Go's DRF-SC guarantee and sync.RWMutex; callbacks are assumed not to re-enter the container.",
+        "level_note": "trusted: Coq kernel + vm_compute; the translator (go/parser, go/types, my effect analysis: derived/fresh/immutable classification, callee summaries); the RWMutex semantics written in Lock.v; Go memory model (race-free programs are sequentially consistent); external calls assumed terminating, non-re-entrant and not touching guarded state.",
+        "assumptions": ["function values / interface methods called by a container method (comparators, Traverse callbacks, the trie's result queue) terminate, do not re-enter the same instance and do not touch its guarded fields",
+                        "writer preference of sync.RWMutex is not modelled (cannot create a race; cannot create a deadlock without nested acquisition, which the discipline excludes)",
+                        "'the instance stays usable afterwards' is checked by the harness's post-scenario sanity sequence and follows from the sequential properties C03-C09 once no call panics or blocks"],
+        "trusted_base": ["translator harness/cmd/skel (Go): go/parser + go/types with the stdlib source importer; effect analysis rules documented in its header",
+                         "Go race detector, used only to search for failing schedules and to validate the translator's skeletons"],
+    },
     "C13": {
         "props": ["theories/C13_Props.v"],
         "level_text": "Every clause of C13 is a Coq theorem over all slices/arguments (unbounded) about a Gallina transcription of slice.go/find.go/math.go/generic.go/range.go; the transcription is tied to the code on every run by running it (extracted, and a sample inside Coq) against the real functions on an exhaustive small scope plus seeded random inputs.",
